@@ -275,6 +275,7 @@ func (s *session) tryToResume(sprint *sprint, waitingRun flows.Run, resume flows
 
 	s.status = flows.SessionStatusActive
 	s.currentResume = resume
+	s.batchStart = false // only the sprint started by the trigger is part of a batch start (and this isn't persisted)
 
 	logEvent := func(e flows.Event) {
 		waitingRun.LogEvent(step, e)
